@@ -240,6 +240,47 @@ Theorem C08_product_product_commute :
                (run gm false gr st [amend1 s2 r2 p2; amend1 s1 r1 p1]).
 Proof. exact product_product_commute. Qed.
 
+(* Any two single-path declarations among {static file, amended output, amended volatile output},
+   ANY creators, ANY two paths (the same path included): rejected in both orders with the same
+   structured message, or accepted in both orders with equal states.  `one_sem` is the common
+   shape of declare_static_files(c,[p]) and amend_step(s, out/vol=[p]) (D_static_spec,
+   D_amend_spec). *)
+Theorem C08_one_one_commute :
+  forall gm gr st A B,
+    Inv gm gr st -> wf1 A -> wf1 B ->
+    accepted (one_sem gm A st) = true -> accepted (one_sem gm B st) = true ->
+    both_equiv (bind (one_sem gm A st) (one_sem gm B)) (bind (one_sem gm B st) (one_sem gm A)).
+Proof. exact one_one_commute. Qed.
+
+Theorem C08_static_static_commute :
+  forall gm gr st c1 p1 c2 p2,
+    Inv gm gr st ->
+    accepted (step gm false gr st (RqStatic c1 [p1])) = true ->
+    accepted (step gm false gr st (RqStatic c2 [p2])) = true ->
+    both_equiv (run gm false gr st [RqStatic c1 [p1]; RqStatic c2 [p2]])
+               (run gm false gr st [RqStatic c2 [p2]; RqStatic c1 [p1]]).
+Proof. exact static_static_commute. Qed.
+
+Theorem C08_static_product_commute :
+  forall gm gr st c1 p1 s r p2,
+    Inv gm gr st -> product_role r = true ->
+    accepted (step gm false gr st (RqStatic c1 [p1])) = true ->
+    accepted (step gm false gr st (amend1 s r p2)) = true ->
+    both_equiv (run gm false gr st [RqStatic c1 [p1]; amend1 s r p2])
+               (run gm false gr st [amend1 s r p2; RqStatic c1 [p1]]).
+Proof. exact static_product_commute. Qed.
+
+Example C08_static_product_example :
+  let st := run_skip w_gm false false empty_state
+              [RqDefine CRoot w_plan [] [] []; RqDefine (CStep w_plan) w_A [] [] [];
+               RqDefine (CStep w_plan) w_B [] [] []] in
+  accepted (step w_gm false false st (RqStatic (CStep w_A) [w_atxt])) = true /\
+  accepted (step w_gm false false st (amend1 w_B ROutput w_atxt)) = true /\
+  run w_gm false false st [RqStatic (CStep w_A) [w_atxt]; amend1 w_B ROutput w_atxt]
+    = run w_gm false false st [amend1 w_B ROutput w_atxt; RqStatic (CStep w_A) [w_atxt]] /\
+  accepted (run w_gm false false st [RqStatic (CStep w_A) [w_atxt]; amend1 w_B ROutput w_atxt]) = false.
+Proof. vm_compute. repeat split; reflexivity. Qed.
+
 (* Glob pattern versus amended product for the variant of register_nglob that scans the
    products (gr = true, findings.d/C08-D3.patch): rejected in both orders with the same message
    exactly when the regex matches the product, else accepted in both orders with the same state.
